@@ -317,6 +317,15 @@ func runC11(col *Collector, tier string, seed int64) {
 			}
 		}
 	}
+	// one very long line (at and beyond 64 KiB, the default token limit of a line scanner) written by a builtin in one
+	// piece, under every format
+	for _, f := range []string{"prefixed", "cockpit", "raw"} {
+		for _, size := range []int{65535, 65536, 70000, 200000} {
+			line := append(bytes.Repeat([]byte("w"), size), '\n')
+			specs = append(specs, capSpec{name: fmt.Sprintf("wide%d", size), nCmds: 1, chunks: [][]byte{line}, consumers: 1, format: f, builtinConsumer: true})
+			tags = append(tags, "one-long-line+format="+f)
+		}
+	}
 	// beyond the kernel's limit for one exec argument (128 KiB): handed over unabridged to commands made of builtins
 	for _, size := range []int{131072 - 11, 131072, 300000} {
 		b := make([]byte, size)
